@@ -21,7 +21,7 @@ RULE = ('per configuration: BFS over call-event sequences to the depth bound, de
         'and parameter values after re-parsing it on a reset gin) and replayed. non-trivial = sequence length >= 2.')
 ASSUMPTIONS = ['OperativeModel restates the rule: defaults (representable, allowed) + applicable bindings - caller '
                'supplied names, most recent value wins', 'probe bodies record arguments only']
-WITNESSES = ['operative_after_failed_macro_call', 'param_from_earlier_call_kept', 'caller_supplied_omitted', 'scoped_section', 'macro_as_definition',
+WITNESSES = ['read_overlapping_call', 'same_named_modules_replayed', 'operative_after_failed_macro_call', 'param_from_earlier_call_kept', 'caller_supplied_omitted', 'scoped_section', 'macro_as_definition',
              'constant_omitted', 'denylisted_default_omitted', 'nonrepresentable_omitted', 'method_section',
              'replay_same_records', 'replay_same_text', 'uncalled_absent', 'evaluated_ref_section', 'rebound_between_calls']
 
@@ -72,6 +72,12 @@ def setup():
     REC.append(('kwd', a, b, k, j))
 
   @gin.configurable(module='c07')
+  def th(a=1, b=2):
+    return (a, b)
+  global TH
+  TH = th
+
+  @gin.configurable(module='c07')
   def never(z=0):
     REC.append(('never', z))
 
@@ -86,6 +92,16 @@ def setup():
   K.m.__qualname__ = 'K.m'
   gin.register(K.m)
   gin.register(K)
+  # three packages whose module has the same name: the operative text must give each its own alias
+  import atexit, os, shutil, sys, tempfile  # pylint: disable=import-outside-toplevel,multiple-imports
+  d = tempfile.mkdtemp(prefix='c07_')
+  for pk in ('c07pa', 'c07pb', 'c07pc', 'c07pd'):
+    os.makedirs(os.path.join(d, pk))
+    open(os.path.join(d, pk, '__init__.py'), 'w').close()
+    with open(os.path.join(d, pk, 'nets.py'), 'w') as fh:
+      fh.write("def build(width=1, depth=2):\n  return (%r, width, depth)\n" % pk)
+  sys.path.insert(0, d)
+  atexit.register(lambda: shutil.rmtree(d, ignore_errors=True))
   global F, G, CONSUMER, AL, DL, KCLS, Z0, ZF, KWD
   F, G, CONSUMER, AL, DL, KCLS, Z0, ZF, KWD = f, g, consumer, al, dl, K, z0, zf, kwd
 
@@ -528,10 +544,101 @@ def run_failed_macro(name, res):
     res.w('operative_after_failed_macro_call')
 
 
+# ------------------------------------------------------------------------- a read overlapping a call (one fixed schedule)
+# (the interleavings are C18's subject and are explored there; this single schedule — the read is in the middle of
+#  formatting when another thread's call adds a parameter to the very section being formatted — is pinned with a value
+#  whose repr starts that call)
+class ReprStartsCall(int):
+  started = []
+
+  def __repr__(self):
+    if not ReprStartsCall.started:
+      import threading  # pylint: disable=import-outside-toplevel
+      t = threading.Thread(target=lambda: ReprStartsCall.errors.extend(_try(TH)))
+      ReprStartsCall.started.append(t)
+      t.start()
+      t.join(0.4)          # with the lock held by the reader the call cannot proceed yet: this times out
+    return int.__repr__(self)
+  errors = []
+
+
+def _try(fn):
+  try:
+    fn()
+    return []
+  except Exception as e:  # pylint: disable=broad-except
+    return [e]
+
+
+def run_read_overlapping_call(res):
+  art = {'special': 'read_overlapping_call'}
+  harness.hard_reset()
+  del ReprStartsCall.started[:]
+  del ReprStartsCall.errors[:]
+  res.case(('read_overlapping_call',), True)
+  gin.bind_parameter('c07.th.a', ReprStartsCall(7))
+  TH(b='caller')                 # records a (bound), not b (caller-supplied)
+  try:
+    text = gin.operative_config_str()
+  except Exception as e:  # pylint: disable=broad-except
+    res.violation('read_failed_because_of_a_call', 'operative_config_str() overlapping a call in another thread raised %r' % (e,), art)
+    for t in ReprStartsCall.started:
+      t.join(5)
+    return
+  for t in ReprStartsCall.started:
+    t.join(5)
+  if ReprStartsCall.errors or any(t.is_alive() for t in ReprStartsCall.started):
+    res.violation('read_failed_because_of_a_call', 'the overlapping call failed / never returned: %r' % (ReprStartsCall.errors,), art)
+    return
+  after = gin.operative_config_str()
+  if 'th.a = 7' not in text or 'th.b' not in after:
+    res.violation('operative_params', 'read overlapping a call: first text\n%s\nlater text\n%s' % (text, after), art)
+    return
+  res.w('read_overlapping_call')
+
+
+# ------------------------------------------------------------------------- dynamic registration: same-named modules
+def run_dynamic_collisions(n, res):
+  import importlib  # pylint: disable=import-outside-toplevel
+  art = {'special': 'dynamic_collisions', 'n': n}
+  pks = ['c07pa', 'c07pb', 'c07pc', 'c07pd'][:n]
+  harness.hard_reset()
+  res.case(('dynamic_collisions', n), True)
+  head = 'from __gin__ import dynamic_registration\n'
+  mods = [importlib.import_module(pk + '.nets') for pk in pks]
+
+  def calls():
+    return [gin.get_configurable(m.build)() for m in mods]
+  try:
+    for i, pk in enumerate(pks):
+      gin.parse_config(head + 'from %s import nets\nnets.build.width = %d\n' % (pk, 10 * (i + 1)))
+    first = calls()
+    text = gin.operative_config_str()
+    harness.hard_reset()
+    gin.parse_config(text)
+    second = calls()
+    text2 = gin.operative_config_str()
+  except Exception as e:  # pylint: disable=broad-except
+    res.violation('operative_unparseable', 'dynamic registration, %d modules named nets: %r' % (n, e), art)
+    return
+  res.outcome('dynamic_collisions')
+  if second != first:
+    res.violation('replay_records', 'dynamic registration, %d modules named nets: replay from the operative text gives %r, '
+                  'first run %r\n%s' % (n, second, first, text), art)
+  elif text2 != text:
+    res.violation('replay_text', 'dynamic registration, %d modules named nets: replay reproduces a different text:\n%s\n'
+                  '--- first:\n%s' % (n, text2, text), art)
+  else:
+    res.w('same_named_modules_replayed')
+
+
 def run(ctx):
   res = core.Result()
   for name in FAILED_MACRO:
     run_failed_macro(name, res)
+  for n in (2, 3, 4):
+    run_dynamic_collisions(n, res)
+  run_read_overlapping_call(res)
   harness.hard_reset()
   mod = __import__('checks.c07', fromlist=['x'])
   evs = EVENTS_Q if ctx.quick else list(EVENTS) + list(REBIND)
@@ -550,6 +657,16 @@ def run(ctx):
 
 
 def replay(obj):
+  if obj.get('special') == 'read_overlapping_call':
+    res = core.Result()
+    run_read_overlapping_call(res)
+    harness.hard_reset()
+    return res
+  if obj.get('special') == 'dynamic_collisions':
+    res = core.Result()
+    run_dynamic_collisions(obj['n'], res)
+    harness.hard_reset()
+    return res
   if obj.get('special') == 'failed_macro':
     res = core.Result()
     run_failed_macro(obj['name'], res)
